@@ -602,3 +602,12 @@ Theorem C04_rewrite_sections_all : forall b pre secs, info_ok b -> adoc_ok pre s
                     (forall order', Permutation order' (style_keys d') -> write_ssa d' order' = Ok data).
 Proof. exact rewrite_sections_all. Qed.
 Print Assumptions C04_rewrite_sections_all.
+
+(* ---- the model's literals are the constants of the Go source (Proofs/ConstTie.v, Gen/Consts.v regenerated from the
+   repository on every run by tools/genconsts): every SSA/ASS keyword, separator, tag and name the model spells out equals the
+   package-level constant, struct tag or bidirectional-map entry of the source, or occurs among the string literals of
+   the function the model transcribes.  A closed boolean computed by the kernel. ---- *)
+From Astisub Require Proofs.ConstTie.
+Theorem C04_constants_from_source : ConstTie.all ConstTie.SsaTie.ties = true.
+Proof. exact ConstTie.SsaTie.consts_from_source. Qed.
+Print Assumptions C04_constants_from_source.
